@@ -34,307 +34,275 @@
 (assert
  (= (srunes str_0) 0))
 (assert
- (let ((?x9538 (slen str_1)))
- (= ?x9538 6)))
+ (let ((?x15987 (slen str_1)))
+ (= ?x15987 6)))
 (assert
- (let ((?x10318 (srunes str_1)))
- (= ?x10318 6)))
+ (let ((?x15412 (srunes str_1)))
+ (= ?x15412 6)))
 (assert
- (let ((?x5337 (slen str_2)))
- (= ?x5337 7)))
+ (let ((?x17642 (slen str_2)))
+ (= ?x17642 7)))
 (assert
- (let ((?x16525 (srunes str_2)))
- (= ?x16525 7)))
+ (let ((?x13410 (srunes str_2)))
+ (= ?x13410 7)))
 (assert
- (forall ((r!wt Int) )(! (let ((?x17910 (select |H\|interpreter.argsParser\|args#arr\|Int@0| r!wt)))
- (let (($x6425 (>= ?x17910 0)))
- (and $x6425 (< ?x17910 alloc@0)))) :pattern ( (select |H\|interpreter.argsParser\|args#arr\|Int@0| r!wt) ) :qid q_r_wt_H_interpreter.argsParser_args_arr_Int_0))
+ (forall ((r!wt Int) )(! (let ((?x55783 (select |H\|interpreter.argsParser\|args#arr\|Int@0| r!wt)))
+ (let (($x43411 (>= ?x55783 0)))
+ (and $x43411 (< ?x55783 alloc@0)))) :pattern ( (select |H\|interpreter.argsParser\|args#arr\|Int@0| r!wt) ) :qid q_r_wt_H_interpreter.argsParser_args_arr_Int_0))
  )
 (assert
- (forall ((r!wt Int) (k!wt Str) )(! (let ((?x24893 (select (select |MV\|map[string][]string\|#arr\|Int@0| r!wt) k!wt)))
- (let (($x20397 (>= ?x24893 0)))
- (and $x20397 (< ?x24893 alloc@0)))) :pattern ( (select (select |MV\|map[string][]string\|#arr\|Int@0| r!wt) k!wt) ) :qid q_r_wt_MV_map_string___string__arr_Int_0))
+ (forall ((r!wt Int) (k!wt Str) )(! (let ((?x1461 (select (select |MV\|map[string][]string\|#arr\|Int@0| r!wt) k!wt)))
+ (let (($x1369 (>= ?x1461 0)))
+ (and $x1369 (< ?x1461 alloc@0)))) :pattern ( (select (select |MV\|map[string][]string\|#arr\|Int@0| r!wt) k!wt) ) :qid q_r_wt_MV_map_string___string__arr_Int_0))
  )
 (assert
- (forall ((r!wt Int) (k!wt Str) )(! (let ((?x17781 (select (select |MV\|map[string]map[string]string\|\|Int@0| r!wt) k!wt)))
- (let (($x17150 (>= ?x17781 0)))
- (and $x17150 (< ?x17781 alloc@0)))) :pattern ( (select (select |MV\|map[string]map[string]string\|\|Int@0| r!wt) k!wt) ) :qid q_r_wt_MV_map_string_map_string_string__Int_0))
+ (forall ((r!wt Int) (k!wt Str) )(! (let ((?x14535 (select (select |MV\|map[string]map[string]string\|\|Int@0| r!wt) k!wt)))
+ (let (($x14311 (>= ?x14535 0)))
+ (and $x14311 (< ?x14535 alloc@0)))) :pattern ( (select (select |MV\|map[string]map[string]string\|\|Int@0| r!wt) k!wt) ) :qid q_r_wt_MV_map_string_map_string_string__Int_0))
  )
 (assert
- (forall ((r!wt Int) )(! (let ((?x22829 (select |H\|interpreter.programState\|CachedAccountsMeta\|Int@0| r!wt)))
- (let (($x16746 (>= ?x22829 0)))
- (and $x16746 (< ?x22829 alloc@0)))) :pattern ( (select |H\|interpreter.programState\|CachedAccountsMeta\|Int@0| r!wt) ) :qid q_r_wt_H_interpreter.programState_CachedAccountsMeta_Int_0))
+ (forall ((r!wt Int) )(! (let ((?x7192 (select |H\|interpreter.programState\|CachedAccountsMeta\|Int@0| r!wt)))
+ (let (($x19971 (>= ?x7192 0)))
+ (and $x19971 (< ?x7192 alloc@0)))) :pattern ( (select |H\|interpreter.programState\|CachedAccountsMeta\|Int@0| r!wt) ) :qid q_r_wt_H_interpreter.programState_CachedAccountsMeta_Int_0))
  )
 (assert
  (>= alloc@0 1))
 (assert
- (let (($x696 (>= in_s 0)))
- (and $x696 (< in_s alloc@0))))
+ (let (($x4890 (>= in_s 0)))
+ (and $x4890 (< in_s alloc@0))))
 (assert
- (let (($x21765 (<= in_rng 9223372036854775807)))
- (let (($x17843 (>= in_rng (- 9223372036854775808))))
- (and $x17843 $x21765))))
+ (let (($x17394 (<= in_rng 9223372036854775807)))
+ (let (($x7222 (>= in_rng (- 9223372036854775808))))
+ (and $x7222 $x17394))))
 (assert
- (let (($x17251 (<= in_rng_1 9223372036854775807)))
- (let (($x21644 (>= in_rng_1 (- 9223372036854775808))))
- (and $x21644 $x17251))))
+ (let (($x12689 (<= in_rng_1 9223372036854775807)))
+ (let (($x7762 (>= in_rng_1 (- 9223372036854775808))))
+ (and $x7762 $x12689))))
 (assert
- (let (($x3588 (<= in_rng_2 9223372036854775807)))
- (let (($x19126 (>= in_rng_2 (- 9223372036854775808))))
- (and $x19126 $x3588))))
+ (let (($x12381 (<= in_rng_2 9223372036854775807)))
+ (let (($x14435 (>= in_rng_2 (- 9223372036854775808))))
+ (and $x14435 $x12381))))
 (assert
- (let (($x21356 (<= in_rng_3 9223372036854775807)))
- (let (($x22335 (>= in_rng_3 (- 9223372036854775808))))
- (and $x22335 $x21356))))
+ (let (($x17295 (<= in_rng_3 9223372036854775807)))
+ (let (($x12490 (>= in_rng_3 (- 9223372036854775808))))
+ (and $x12490 $x17295))))
 (assert
- (let (($x9055 (= in_args_2 0)))
- (let (($x16585 (= in_args 0)))
- (=> $x16585 $x9055))))
+ (let (($x37574 (= in_args_2 0)))
+ (let (($x40315 (= in_args 0)))
+ (=> $x40315 $x37574))))
 (assert
- (let (($x18897 (>= in_args 0)))
- (and $x18897 (< in_args alloc@0))))
+ (let (($x46276 (>= in_args 0)))
+ (and $x46276 (< in_args alloc@0))))
 (assert
  (>= 0 0))
 (assert
  (>= in_args_2 0))
 (assert
- (let (($x925 (not (= (select |H\|interpreter.programState\|Store\|Any@0| in_s) nil))))
- (let (($x1045 (not (= in_s 0))))
- (and $x1045 $x925))))
+ (let (($x30844 (not (= (select |H\|interpreter.programState\|Store\|Any@0| in_s) nil))))
+ (let (($x6130 (not (= in_s 0))))
+ (and $x6130 $x30844))))
 (assert
- (forall ((i!b Int) )(! (let ((?x11109 (select |A\|interface{String() string; value()}\|\|Any@0| in_args)))
- (let ((?x19653 (select ?x11109 i!b)))
- (let (($x21743 ((_ is mk170 ) ?x19653)))
- (let (($x23059 ((_ is mk171 ) ?x19653)))
- (let (($x15646 (or (or (or (or (or ((_ is mk179 ) ?x19653) ((_ is mk155 ) ?x19653)) ((_ is mk154 ) ?x19653)) ((_ is mk174 ) ?x19653)) $x23059) $x21743)))
- (=> (and (<= 0 i!b) (< i!b in_args_2)) $x15646)))))) :qid q_i_b_nopat))
+ (forall ((i!b Int) )(! (let ((?x24183 (select |A\|interface{String() string; value()}\|\|Any@0| in_args)))
+ (let ((?x41067 (select ?x24183 i!b)))
+ (let (($x37992 ((_ is mk170 ) ?x41067)))
+ (let (($x52452 ((_ is mk171 ) ?x41067)))
+ (let (($x46231 (or (or (or (or (or ((_ is mk179 ) ?x41067) ((_ is mk155 ) ?x41067)) ((_ is mk154 ) ?x41067)) ((_ is mk174 ) ?x41067)) $x52452) $x37992)))
+ (=> (and (<= 0 i!b) (< i!b in_args_2)) $x46231)))))) :qid q_i_b_nopat))
  )
 (assert
- (let (($x69 (= alloc@0 0)))
- (not $x69)))
+ (not (= alloc@0 0)))
 (assert
- (let (($x69 (= alloc@0 0)))
- (not $x69)))
+ (not (= alloc@0 0)))
 (assert
- (let (($x69 (= alloc@0 0)))
- (not $x69)))
+ (not (= alloc@0 0)))
 (assert
- (let (($x69 (= alloc@0 0)))
- (not $x69)))
+ (not (= alloc@0 0)))
 (assert
- (let (($x69 (= alloc@0 0)))
- (not $x69)))
+ (not (= alloc@0 0)))
 (assert
- (let (($x69 (= alloc@0 0)))
- (not $x69)))
+ (not (= alloc@0 0)))
 (assert
- (let (($x69 (= alloc@0 0)))
- (not $x69)))
+ (not (= alloc@0 0)))
 (assert
- (let (($x69 (= alloc@0 0)))
- (not $x69)))
+ (not (= alloc@0 0)))
 (assert
- (let (($x69 (= alloc@0 0)))
- (not $x69)))
+ (not (= alloc@0 0)))
 (assert
- (let (($x69 (= alloc@0 0)))
- (not $x69)))
+ (not (= alloc@0 0)))
 (assert
- (let (($x69 (= alloc@0 0)))
- (not $x69)))
+ (not (= alloc@0 0)))
 (assert
- (let (($x69 (= alloc@0 0)))
- (not $x69)))
+ (not (= alloc@0 0)))
 (assert
- (let ((?x17175 (store (store |H\|interpreter.argsParser\|args#len\|Int@0| alloc@0 0) alloc@0 in_args_2)))
- (let ((?x17922 (select ?x17175 alloc@0)))
- (let ((?x10146 (store (store |H\|interpreter.argsParser\|args#arr\|Int@0| alloc@0 0) alloc@0 in_args)))
- (let ((?x24633 (select ?x10146 alloc@0)))
- (=> (= ?x24633 0) (= ?x17922 0)))))))
+ (let ((?x24469 (store (store |H\|interpreter.argsParser\|args#len\|Int@0| alloc@0 0) alloc@0 in_args_2)))
+ (let ((?x22525 (select ?x24469 alloc@0)))
+ (let ((?x54364 (store (store |H\|interpreter.argsParser\|args#arr\|Int@0| alloc@0 0) alloc@0 in_args)))
+ (let ((?x8868 (select ?x54364 alloc@0)))
+ (=> (= ?x8868 0) (= ?x22525 0)))))))
 (assert
- (let ((?x49 (+ alloc@0 1)))
- (let ((?x10146 (store (store |H\|interpreter.argsParser\|args#arr\|Int@0| alloc@0 0) alloc@0 in_args)))
- (let ((?x24633 (select ?x10146 alloc@0)))
- (let (($x23363 (>= ?x24633 0)))
- (and $x23363 (< ?x24633 ?x49)))))))
+ (let ((?x5343 (+ alloc@0 1)))
+ (let ((?x54364 (store (store |H\|interpreter.argsParser\|args#arr\|Int@0| alloc@0 0) alloc@0 in_args)))
+ (let ((?x8868 (select ?x54364 alloc@0)))
+ (let (($x45225 (>= ?x8868 0)))
+ (and $x45225 (< ?x8868 ?x5343)))))))
 (assert
  (>= 0 0))
 (assert
- (let ((?x17175 (store (store |H\|interpreter.argsParser\|args#len\|Int@0| alloc@0 0) alloc@0 in_args_2)))
- (let ((?x17922 (select ?x17175 alloc@0)))
- (>= ?x17922 0))))
+ (let ((?x24469 (store (store |H\|interpreter.argsParser\|args#len\|Int@0| alloc@0 0) alloc@0 in_args_2)))
+ (let ((?x22525 (select ?x24469 alloc@0)))
+ (>= ?x22525 0))))
 (assert
- (let (($x22997 (>= 0 in_args_2)))
- (not $x22997)))
+ (let (($x47336 (>= 0 in_args_2)))
+ (not $x47336)))
 (assert
- (let (($x69 (= alloc@0 0)))
- (not $x69)))
+ (not (= alloc@0 0)))
 (assert
- (let (($x69 (= alloc@0 0)))
- (not $x69)))
+ (not (= alloc@0 0)))
 (assert
- (let ((?x17175 (store (store |H\|interpreter.argsParser\|args#len\|Int@0| alloc@0 0) alloc@0 in_args_2)))
- (let ((?x17922 (select ?x17175 alloc@0)))
- (let ((?x10146 (store (store |H\|interpreter.argsParser\|args#arr\|Int@0| alloc@0 0) alloc@0 in_args)))
- (let ((?x24633 (select ?x10146 alloc@0)))
- (=> (= ?x24633 0) (= ?x17922 0)))))))
+ (let ((?x24469 (store (store |H\|interpreter.argsParser\|args#len\|Int@0| alloc@0 0) alloc@0 in_args_2)))
+ (let ((?x22525 (select ?x24469 alloc@0)))
+ (let ((?x54364 (store (store |H\|interpreter.argsParser\|args#arr\|Int@0| alloc@0 0) alloc@0 in_args)))
+ (let ((?x8868 (select ?x54364 alloc@0)))
+ (=> (= ?x8868 0) (= ?x22525 0)))))))
 (assert
- (let ((?x49 (+ alloc@0 1)))
- (let ((?x10146 (store (store |H\|interpreter.argsParser\|args#arr\|Int@0| alloc@0 0) alloc@0 in_args)))
- (let ((?x24633 (select ?x10146 alloc@0)))
- (let (($x23363 (>= ?x24633 0)))
- (and $x23363 (< ?x24633 ?x49)))))))
+ (let ((?x5343 (+ alloc@0 1)))
+ (let ((?x54364 (store (store |H\|interpreter.argsParser\|args#arr\|Int@0| alloc@0 0) alloc@0 in_args)))
+ (let ((?x8868 (select ?x54364 alloc@0)))
+ (let (($x45225 (>= ?x8868 0)))
+ (and $x45225 (< ?x8868 ?x5343)))))))
 (assert
  (>= 0 0))
 (assert
- (let ((?x17175 (store (store |H\|interpreter.argsParser\|args#len\|Int@0| alloc@0 0) alloc@0 in_args_2)))
- (let ((?x17922 (select ?x17175 alloc@0)))
- (>= ?x17922 0))))
+ (let ((?x24469 (store (store |H\|interpreter.argsParser\|args#len\|Int@0| alloc@0 0) alloc@0 in_args_2)))
+ (let ((?x22525 (select ?x24469 alloc@0)))
+ (>= ?x22525 0))))
 (assert
- (let ((?x17175 (store (store |H\|interpreter.argsParser\|args#len\|Int@0| alloc@0 0) alloc@0 in_args_2)))
- (let ((?x17922 (select ?x17175 alloc@0)))
- (let ((?x23968 (store |H\|interpreter.argsParser\|parsedArgsCount\|Int@0| alloc@0 0)))
- (let ((?x9447 (select ?x23968 alloc@0)))
- (and (>= ?x9447 0) (< ?x9447 ?x17922)))))))
+ (let ((?x24469 (store (store |H\|interpreter.argsParser\|args#len\|Int@0| alloc@0 0) alloc@0 in_args_2)))
+ (let ((?x22525 (select ?x24469 alloc@0)))
+ (let ((?x53770 (store |H\|interpreter.argsParser\|parsedArgsCount\|Int@0| alloc@0 0)))
+ (let ((?x30630 (select ?x53770 alloc@0)))
+ (and (>= ?x30630 0) (< ?x30630 ?x22525)))))))
 (assert
- (let ((?x11109 (select |A\|interface{String() string; value()}\|\|Any@0| in_args)))
- (let ((?x16826 (select ?x11109 0)))
- ((_ is mk154 ) ?x16826))))
+ (let ((?x24183 (select |A\|interface{String() string; value()}\|\|Any@0| in_args)))
+ (let ((?x27785 (select ?x24183 0)))
+ ((_ is mk154 ) ?x27785))))
 (assert
  (not (= alloc@0 (- 1))))
 (assert
- (let (($x69 (= alloc@0 0)))
- (not $x69)))
+ (not (= alloc@0 0)))
 (assert
- (let (($x69 (= alloc@0 0)))
- (not $x69)))
+ (not (= alloc@0 0)))
 (assert
- (let (($x69 (= alloc@0 0)))
- (not $x69)))
+ (not (= alloc@0 0)))
 (assert
- (let (($x69 (= alloc@0 0)))
- (not $x69)))
+ (not (= alloc@0 0)))
 (assert
- (let (($x69 (= alloc@0 0)))
- (not $x69)))
+ (not (= alloc@0 0)))
 (assert
- (let (($x69 (= alloc@0 0)))
- (not $x69)))
+ (not (= alloc@0 0)))
 (assert
- (let (($x69 (= alloc@0 0)))
- (not $x69)))
+ (not (= alloc@0 0)))
 (assert
- (let (($x69 (= alloc@0 0)))
- (not $x69)))
+ (not (= alloc@0 0)))
 (assert
- (let (($x69 (= alloc@0 0)))
- (not $x69)))
+ (not (= alloc@0 0)))
 (assert
- (let (($x69 (= alloc@0 0)))
- (not $x69)))
+ (not (= alloc@0 0)))
 (assert
- (let ((?x17175 (store (store |H\|interpreter.argsParser\|args#len\|Int@0| alloc@0 0) alloc@0 in_args_2)))
- (let ((?x17922 (select ?x17175 alloc@0)))
- (let ((?x10146 (store (store |H\|interpreter.argsParser\|args#arr\|Int@0| alloc@0 0) alloc@0 in_args)))
- (let ((?x24633 (select ?x10146 alloc@0)))
- (=> (= ?x24633 0) (= ?x17922 0)))))))
+ (let ((?x24469 (store (store |H\|interpreter.argsParser\|args#len\|Int@0| alloc@0 0) alloc@0 in_args_2)))
+ (let ((?x22525 (select ?x24469 alloc@0)))
+ (let ((?x54364 (store (store |H\|interpreter.argsParser\|args#arr\|Int@0| alloc@0 0) alloc@0 in_args)))
+ (let ((?x8868 (select ?x54364 alloc@0)))
+ (=> (= ?x8868 0) (= ?x22525 0)))))))
 (assert
- (let ((?x49 (+ alloc@0 1)))
- (let ((?x24137 (+ ?x49 1)))
- (let ((?x10146 (store (store |H\|interpreter.argsParser\|args#arr\|Int@0| alloc@0 0) alloc@0 in_args)))
- (let ((?x24633 (select ?x10146 alloc@0)))
- (let (($x23363 (>= ?x24633 0)))
- (and $x23363 (< ?x24633 ?x24137))))))))
+ (let ((?x5343 (+ alloc@0 1)))
+ (let ((?x5367 (+ ?x5343 1)))
+ (let ((?x54364 (store (store |H\|interpreter.argsParser\|args#arr\|Int@0| alloc@0 0) alloc@0 in_args)))
+ (let ((?x8868 (select ?x54364 alloc@0)))
+ (let (($x45225 (>= ?x8868 0)))
+ (and $x45225 (< ?x8868 ?x5367))))))))
 (assert
  (>= 0 0))
 (assert
- (let ((?x17175 (store (store |H\|interpreter.argsParser\|args#len\|Int@0| alloc@0 0) alloc@0 in_args_2)))
- (let ((?x17922 (select ?x17175 alloc@0)))
- (>= ?x17922 0))))
+ (let ((?x24469 (store (store |H\|interpreter.argsParser\|args#len\|Int@0| alloc@0 0) alloc@0 in_args_2)))
+ (let ((?x22525 (select ?x24469 alloc@0)))
+ (>= ?x22525 0))))
 (assert
- (let (($x19178 (>= 1 in_args_2)))
- (not $x19178)))
+ (let (($x26729 (>= 1 in_args_2)))
+ (not $x26729)))
 (assert
- (let (($x69 (= alloc@0 0)))
- (not $x69)))
+ (not (= alloc@0 0)))
 (assert
- (let (($x69 (= alloc@0 0)))
- (not $x69)))
+ (not (= alloc@0 0)))
 (assert
- (let ((?x17175 (store (store |H\|interpreter.argsParser\|args#len\|Int@0| alloc@0 0) alloc@0 in_args_2)))
- (let ((?x17922 (select ?x17175 alloc@0)))
- (let ((?x10146 (store (store |H\|interpreter.argsParser\|args#arr\|Int@0| alloc@0 0) alloc@0 in_args)))
- (let ((?x24633 (select ?x10146 alloc@0)))
- (=> (= ?x24633 0) (= ?x17922 0)))))))
+ (let ((?x24469 (store (store |H\|interpreter.argsParser\|args#len\|Int@0| alloc@0 0) alloc@0 in_args_2)))
+ (let ((?x22525 (select ?x24469 alloc@0)))
+ (let ((?x54364 (store (store |H\|interpreter.argsParser\|args#arr\|Int@0| alloc@0 0) alloc@0 in_args)))
+ (let ((?x8868 (select ?x54364 alloc@0)))
+ (=> (= ?x8868 0) (= ?x22525 0)))))))
 (assert
- (let ((?x49 (+ alloc@0 1)))
- (let ((?x24137 (+ ?x49 1)))
- (let ((?x10146 (store (store |H\|interpreter.argsParser\|args#arr\|Int@0| alloc@0 0) alloc@0 in_args)))
- (let ((?x24633 (select ?x10146 alloc@0)))
- (let (($x23363 (>= ?x24633 0)))
- (and $x23363 (< ?x24633 ?x24137))))))))
+ (let ((?x5343 (+ alloc@0 1)))
+ (let ((?x5367 (+ ?x5343 1)))
+ (let ((?x54364 (store (store |H\|interpreter.argsParser\|args#arr\|Int@0| alloc@0 0) alloc@0 in_args)))
+ (let ((?x8868 (select ?x54364 alloc@0)))
+ (let (($x45225 (>= ?x8868 0)))
+ (and $x45225 (< ?x8868 ?x5367))))))))
 (assert
  (>= 0 0))
 (assert
- (let ((?x17175 (store (store |H\|interpreter.argsParser\|args#len\|Int@0| alloc@0 0) alloc@0 in_args_2)))
- (let ((?x17922 (select ?x17175 alloc@0)))
- (>= ?x17922 0))))
+ (let ((?x24469 (store (store |H\|interpreter.argsParser\|args#len\|Int@0| alloc@0 0) alloc@0 in_args_2)))
+ (let ((?x22525 (select ?x24469 alloc@0)))
+ (>= ?x22525 0))))
 (assert
- (let ((?x17175 (store (store |H\|interpreter.argsParser\|args#len\|Int@0| alloc@0 0) alloc@0 in_args_2)))
- (let ((?x17922 (select ?x17175 alloc@0)))
- (let ((?x23968 (store |H\|interpreter.argsParser\|parsedArgsCount\|Int@0| alloc@0 0)))
- (let ((?x9447 (select ?x23968 alloc@0)))
- (let ((?x22782 (store ?x23968 alloc@0 (+ ?x9447 1))))
- (let ((?x20378 (select ?x22782 alloc@0)))
- (and (>= ?x20378 0) (< ?x20378 ?x17922)))))))))
+ (let ((?x24469 (store (store |H\|interpreter.argsParser\|args#len\|Int@0| alloc@0 0) alloc@0 in_args_2)))
+ (let ((?x22525 (select ?x24469 alloc@0)))
+ (let ((?x53770 (store |H\|interpreter.argsParser\|parsedArgsCount\|Int@0| alloc@0 0)))
+ (let ((?x30630 (select ?x53770 alloc@0)))
+ (let ((?x35246 (store ?x53770 alloc@0 (+ ?x30630 1))))
+ (let ((?x37633 (select ?x35246 alloc@0)))
+ (and (>= ?x37633 0) (< ?x37633 ?x22525)))))))))
 (assert
- (let ((?x11109 (select |A\|interface{String() string; value()}\|\|Any@0| in_args)))
- (let ((?x18123 (select ?x11109 1)))
- ((_ is mk179 ) ?x18123))))
+ (let ((?x24183 (select |A\|interface{String() string; value()}\|\|Any@0| in_args)))
+ (let ((?x34543 (select ?x24183 1)))
+ ((_ is mk179 ) ?x34543))))
 (assert
  (not (= alloc@0 (- 2))))
 (assert
- (let (($x69 (= alloc@0 0)))
- (not $x69)))
+ (not (= alloc@0 0)))
 (assert
- (let (($x69 (= alloc@0 0)))
- (not $x69)))
+ (not (= alloc@0 0)))
 (assert
- (let ((?x17175 (store (store |H\|interpreter.argsParser\|args#len\|Int@0| alloc@0 0) alloc@0 in_args_2)))
- (let ((?x17922 (select ?x17175 alloc@0)))
- (let ((?x10146 (store (store |H\|interpreter.argsParser\|args#arr\|Int@0| alloc@0 0) alloc@0 in_args)))
- (let ((?x24633 (select ?x10146 alloc@0)))
- (=> (= ?x24633 0) (= ?x17922 0)))))))
+ (let ((?x24469 (store (store |H\|interpreter.argsParser\|args#len\|Int@0| alloc@0 0) alloc@0 in_args_2)))
+ (let ((?x22525 (select ?x24469 alloc@0)))
+ (let ((?x54364 (store (store |H\|interpreter.argsParser\|args#arr\|Int@0| alloc@0 0) alloc@0 in_args)))
+ (let ((?x8868 (select ?x54364 alloc@0)))
+ (=> (= ?x8868 0) (= ?x22525 0)))))))
 (assert
- (let ((?x49 (+ alloc@0 1)))
- (let ((?x24137 (+ ?x49 1)))
- (let ((?x15061 (+ ?x24137 1)))
- (let ((?x10146 (store (store |H\|interpreter.argsParser\|args#arr\|Int@0| alloc@0 0) alloc@0 in_args)))
- (let ((?x24633 (select ?x10146 alloc@0)))
- (let (($x23363 (>= ?x24633 0)))
- (and $x23363 (< ?x24633 ?x15061)))))))))
+ (let ((?x5343 (+ alloc@0 1)))
+ (let ((?x5367 (+ ?x5343 1)))
+ (let ((?x5379 (+ ?x5367 1)))
+ (let ((?x54364 (store (store |H\|interpreter.argsParser\|args#arr\|Int@0| alloc@0 0) alloc@0 in_args)))
+ (let ((?x8868 (select ?x54364 alloc@0)))
+ (let (($x45225 (>= ?x8868 0)))
+ (and $x45225 (< ?x8868 ?x5379)))))))))
 (assert
  (>= 0 0))
 (assert
- (let ((?x17175 (store (store |H\|interpreter.argsParser\|args#len\|Int@0| alloc@0 0) alloc@0 in_args_2)))
- (let ((?x17922 (select ?x17175 alloc@0)))
- (>= ?x17922 0))))
+ (let ((?x24469 (store (store |H\|interpreter.argsParser\|args#len\|Int@0| alloc@0 0) alloc@0 in_args_2)))
+ (let ((?x22525 (select ?x24469 alloc@0)))
+ (>= ?x22525 0))))
 (assert
- (let (($x69 (= alloc@0 0)))
- (not $x69)))
+ (not (= alloc@0 0)))
 (assert
- (let (($x69 (= alloc@0 0)))
- (not $x69)))
+ (not (= alloc@0 0)))
 (assert
- (let (($x15546 (= in_args_2 2)))
- (let (($x24560 (not $x15546)))
- (not $x24560))))
+ (let (($x43045 (= in_args_2 2)))
+ (let (($x36538 (not $x43045)))
+ (not $x36538))))
 (assert
- (let (($x69 (= alloc@0 0)))
- (not $x69)))
+ (not (= alloc@0 0)))
 (assert
- (let (($x69 (= alloc@0 0)))
- (not $x69)))
+ (not (= alloc@0 0)))
 (assert
  (not (= in_s 0)))
 (assert
@@ -346,50 +314,48 @@
 (assert
  (not (= alloc@0 (- 1))))
 (assert
- (let (($x37 (>= 0 0)))
- (and $x37 (< 0 1))))
+ (let (($x91 (>= 0 0)))
+ (and $x91 (< 0 1))))
 (assert
  (not (= alloc@0 (- 2))))
 (assert
- (let (($x37 (>= 0 0)))
- (and $x37 (<= 0 1) (<= 1 1))))
+ (let (($x91 (>= 0 0)))
+ (and $x91 (<= 0 1) (<= 1 1))))
 (assert
- (let ((?x49 (+ alloc@0 1)))
- (let ((?x24137 (+ ?x49 1)))
- (let ((?x15061 (+ ?x24137 1)))
- (and (distinct ?x15061 0) true)))))
+ (let ((?x5343 (+ alloc@0 1)))
+ (let ((?x5367 (+ ?x5343 1)))
+ (let ((?x5379 (+ ?x5367 1)))
+ (and (distinct ?x5379 0) true)))))
 (assert
- (let ((?x830 (select |H\|interpreter.programState\|Store\|Any@0| in_s)))
- (and (distinct ?x830 nil) true)))
+ (let ((?x46804 (select |H\|interpreter.programState\|Store\|Any@0| in_s)))
+ (and (distinct ?x46804 nil) true)))
 (assert
- (let ((?x49 (+ alloc@0 1)))
- (let ((?x24137 (+ ?x49 1)))
- (let ((?x15061 (+ ?x24137 1)))
- (let ((?x14458 (+ ?x15061 1)))
- (let ((?x16128 (+ ?x14458 1)))
- (let (($x21420 (>= x_GetAccountsM!9 0)))
- (and $x21420 (< x_GetAccountsM!9 ?x16128)))))))))
+ (let ((?x5343 (+ alloc@0 1)))
+ (let ((?x5367 (+ ?x5343 1)))
+ (let ((?x5379 (+ ?x5367 1)))
+ (let ((?x5323 (+ ?x5379 1)))
+ (let ((?x15625 (+ ?x5323 1)))
+ (let (($x18343 (>= x_GetAccountsM!9 0)))
+ (and $x18343 (< x_GetAccountsM!9 ?x15625)))))))))
 (assert
  (< x_GetAccountsM!9 alloc@0))
 (assert
  (< x_GetAccountsM!9 in_s))
 (assert
- (let (($x23697 (forall ((a!b Str) )(! (let ((?x25040 (select |MV\|map[string]map[string]string\|\|Int@0| x_GetAccountsM!9)))
- (let ((?x23153 (select ?x25040 a!b)))
- (let ((?x23570 (select |MD\|map[string]map[string]string@0| x_GetAccountsM!9)))
- (let (($x22166 (select ?x23570 a!b)))
- (let (($x18786 (and (distinct x_GetAccountsM!9 0) true)))
- (let (($x17037 (and $x18786 $x22166)))
- (let ((?x22615 (ite $x17037 ?x23153 0)))
- (=> $x17037 (and (>= ?x22615 0) (< ?x22615 in_s)))))))))) :qid q_a_b_nopat))
+ (let (($x17580 (forall ((a!b Str) )(! (let ((?x7771 (select |MV\|map[string]map[string]string\|\|Int@0| x_GetAccountsM!9)))
+ (let ((?x13316 (select ?x7771 a!b)))
+ (let ((?x14236 (select |MD\|map[string]map[string]string@0| x_GetAccountsM!9)))
+ (let (($x16374 (select ?x14236 a!b)))
+ (let (($x15537 (and (distinct x_GetAccountsM!9 0) true)))
+ (let (($x15742 (and $x15537 $x16374)))
+ (let ((?x19265 (ite $x15742 ?x13316 0)))
+ (=> $x15742 (and (>= ?x19265 0) (< ?x19265 in_s)))))))))) :qid q_a_b_nopat))
  ))
- (and (and (>= x_GetAccountsM!9 0) (< x_GetAccountsM!9 in_s)) $x23697)))
+ (and (and (>= x_GetAccountsM!9 0) (< x_GetAccountsM!9 in_s)) $x17580)))
 (assert
- (let (($x22933 (= x_GetAccountsM!10 nil)))
- (let (($x19075 (not $x22933)))
- (not $x19075))))
-(assert
- (not (= in_s 0)))
+ (let (($x14514 (= x_GetAccountsM!10 nil)))
+ (let (($x7121 (not $x14514)))
+ (not $x7121))))
 (assert
  (not (= in_s 0)))
 (assert
@@ -397,65 +363,64 @@
 (assert
  (not (= in_s 0)))
 (assert
- (let ((?x49 (+ alloc@0 1)))
- (let ((?x24137 (+ ?x49 1)))
- (let ((?x15061 (+ ?x24137 1)))
- (let ((?x14458 (+ ?x15061 1)))
- (let ((?x16128 (+ ?x14458 1)))
- (let ((?x3484 (store |H\|interpreter.programState\|CachedAccountsMeta\|Int@0| in_s x_GetAccountsM!9)))
- (let ((?x19216 (select ?x3484 in_s)))
- (and (>= ?x19216 0) (< ?x19216 ?x16128))))))))))
+ (not (= in_s 0)))
+(assert
+ (let ((?x5343 (+ alloc@0 1)))
+ (let ((?x5367 (+ ?x5343 1)))
+ (let ((?x5379 (+ ?x5367 1)))
+ (let ((?x5323 (+ ?x5379 1)))
+ (let ((?x15625 (+ ?x5323 1)))
+ (let ((?x18781 (store |H\|interpreter.programState\|CachedAccountsMeta\|Int@0| in_s x_GetAccountsM!9)))
+ (let ((?x12433 (select ?x18781 in_s)))
+ (and (>= ?x12433 0) (< ?x12433 ?x15625))))))))))
 (assert
  (not (= alloc@0 (- 1))))
 (assert
- (let ((?x49 (+ alloc@0 1)))
- (let ((?x24137 (+ ?x49 1)))
- (let ((?x15061 (+ ?x24137 1)))
- (let ((?x14458 (+ ?x15061 1)))
- (let ((?x16128 (+ ?x14458 1)))
- (let ((?x23968 (store |H\|interpreter.argsParser\|parsedArgsCount\|Int@0| alloc@0 0)))
- (let ((?x9447 (select ?x23968 alloc@0)))
- (let ((?x22782 (store ?x23968 alloc@0 (+ ?x9447 1))))
- (let ((?x20378 (select ?x22782 alloc@0)))
- (let ((?x10146 (store (store |H\|interpreter.argsParser\|args#arr\|Int@0| alloc@0 0) alloc@0 in_args)))
- (let ((?x24633 (select ?x10146 alloc@0)))
- (let ((?x15438 (select |A\|interface{String() string; value()}\|\|Any@0| ?x24633)))
- (let ((?x19192 (select ?x15438 ?x20378)))
- (let ((?x22318 (store (store |H\|string\|\|Str@0| ?x49 str_0) ?x49 (ite ((_ is mk154 ) (select ?x15438 ?x9447)) (c154_f0 (select ?x15438 ?x9447)) str_0))))
- (let ((?x23993 (store (store ?x22318 ?x24137 str_0) ?x24137 (ite ((_ is mk179 ) ?x19192) (c179_f0 ?x19192) str_0))))
- (let ((?x16966 (select ?x23993 ?x49)))
- (let ((?x3484 (store |H\|interpreter.programState\|CachedAccountsMeta\|Int@0| in_s x_GetAccountsM!9)))
- (let ((?x19216 (select ?x3484 in_s)))
- (let ((?x22672 (select |MV\|map[string]map[string]string\|\|Int@0| ?x19216)))
- (let (($x11840 (and (distinct ?x19216 0) true)))
- (let (($x18927 (and $x11840 (select (select |MD\|map[string]map[string]string@0| ?x19216) ?x16966))))
- (let ((?x20668 (ite $x18927 (select ?x22672 ?x16966) 0)))
- (and (>= ?x20668 0) (< ?x20668 ?x16128)))))))))))))))))))))))))
+ (let ((?x5343 (+ alloc@0 1)))
+ (let ((?x5367 (+ ?x5343 1)))
+ (let ((?x5379 (+ ?x5367 1)))
+ (let ((?x5323 (+ ?x5379 1)))
+ (let ((?x15625 (+ ?x5323 1)))
+ (let ((?x53770 (store |H\|interpreter.argsParser\|parsedArgsCount\|Int@0| alloc@0 0)))
+ (let ((?x30630 (select ?x53770 alloc@0)))
+ (let ((?x35246 (store ?x53770 alloc@0 (+ ?x30630 1))))
+ (let ((?x37633 (select ?x35246 alloc@0)))
+ (let ((?x54364 (store (store |H\|interpreter.argsParser\|args#arr\|Int@0| alloc@0 0) alloc@0 in_args)))
+ (let ((?x8868 (select ?x54364 alloc@0)))
+ (let ((?x23053 (select |A\|interface{String() string; value()}\|\|Any@0| ?x8868)))
+ (let ((?x36180 (select ?x23053 ?x37633)))
+ (let ((?x25207 (store (store |H\|string\|\|Str@0| ?x5343 str_0) ?x5343 (ite ((_ is mk154 ) (select ?x23053 ?x30630)) (c154_f0 (select ?x23053 ?x30630)) str_0))))
+ (let ((?x27333 (store ?x25207 ?x5367 str_0)))
+ (let ((?x21090 (store ?x27333 ?x5367 (ite ((_ is mk179 ) ?x36180) (c179_f0 ?x36180) str_0))))
+ (let ((?x8646 (select ?x21090 ?x5343)))
+ (let ((?x18781 (store |H\|interpreter.programState\|CachedAccountsMeta\|Int@0| in_s x_GetAccountsM!9)))
+ (let ((?x12433 (select ?x18781 in_s)))
+ (let ((?x10428 (select |MV\|map[string]map[string]string\|\|Int@0| ?x12433)))
+ (let (($x8233 (and (distinct ?x12433 0) true)))
+ (let (($x16870 (and $x8233 (select (select |MD\|map[string]map[string]string@0| ?x12433) ?x8646))))
+ (let ((?x3631 (ite $x16870 (select ?x10428 ?x8646) 0)))
+ (and (>= ?x3631 0) (< ?x3631 ?x15625))))))))))))))))))))))))))
 (assert
- (let ((?x24419 (+ 1 alloc@0)))
- (let ((?x11109 (select |A\|interface{String() string; value()}\|\|Any@0| in_args)))
- (let ((?x18123 (select ?x11109 1)))
- (let ((?x15925 (c179_f0 ?x18123)))
- (let (($x18227 ((_ is mk179 ) ?x18123)))
- (let ((?x23196 (ite $x18227 ?x15925 str_0)))
- (let ((?x13232 (+ 2 alloc@0)))
- (let ((?x16826 (select ?x11109 0)))
- (let ((?x20269 (c154_f0 ?x16826)))
- (let (($x18685 ((_ is mk154 ) ?x16826)))
- (let ((?x19532 (ite $x18685 ?x20269 str_0)))
- (let ((?x21207 (store |H\|string\|\|Str@0| ?x24419 ?x19532)))
- (let ((?x17800 (store ?x21207 ?x13232 ?x23196)))
- (let ((?x22591 (select ?x17800 ?x24419)))
- (let ((?x23570 (select |MD\|map[string]map[string]string@0| x_GetAccountsM!9)))
- (let (($x21618 (= x_GetAccountsM!9 0)))
- (let (($x23424 (not $x21618)))
- (let (($x15202 (and $x23424 (select ?x23570 ?x22591))))
- (not $x15202))))))))))))))))))))
+ (let ((?x19841 (+ 1 alloc@0)))
+ (let ((?x24183 (select |A\|interface{String() string; value()}\|\|Any@0| in_args)))
+ (let ((?x34543 (select ?x24183 1)))
+ (let ((?x7056 (c179_f0 ?x34543)))
+ (let (($x16434 ((_ is mk179 ) ?x34543)))
+ (let ((?x18058 (ite $x16434 ?x7056 str_0)))
+ (let ((?x7852 (+ 2 alloc@0)))
+ (let ((?x19276 (store |H\|string\|\|Str@0| ?x19841 (ite ((_ is mk154 ) (select ?x24183 0)) (c154_f0 (select ?x24183 0)) str_0))))
+ (let ((?x13795 (store ?x19276 ?x7852 ?x18058)))
+ (let ((?x13676 (select ?x13795 ?x19841)))
+ (let ((?x14236 (select |MD\|map[string]map[string]string@0| x_GetAccountsM!9)))
+ (let (($x13494 (= x_GetAccountsM!9 0)))
+ (let (($x7254 (not $x13494)))
+ (let (($x15941 (and $x7254 (select ?x14236 ?x13676))))
+ (not $x15941))))))))))))))))
 (assert
- (let ((?x3484 (store |H\|interpreter.programState\|CachedAccountsMeta\|Int@0| in_s x_GetAccountsM!9)))
- (let ((?x19216 (select ?x3484 in_s)))
- (and (distinct ?x19216 0) true))))
+ (let ((?x18781 (store |H\|interpreter.programState\|CachedAccountsMeta\|Int@0| in_s x_GetAccountsM!9)))
+ (let ((?x12433 (select ?x18781 in_s)))
+ (and (distinct ?x12433 0) true))))
 (assert
- (let (($x18014 (>= x_GetAccountsM!9 alloc@0)))
-(not $x18014)))
+ (let (($x19445 (>= x_GetAccountsM!9 alloc@0)))
+(not $x19445)))
 (check-sat)
